@@ -37,11 +37,12 @@ type Engine struct {
 	Workers    int
 	MaxPaths   int
 
-	Tier        int
-	ReverseMaps bool
-	LazySlices  bool
-	RunGoInline bool
-	SkipInit    map[string]bool
+	Tier              int
+	ReverseMaps       bool
+	LazySlices        bool
+	SamplesPerHarness int
+	RunGoInline       bool
+	SkipInit          map[string]bool
 
 	intrinsics map[string]intrinsicFn
 	opaquePkgs map[string]string
@@ -89,7 +90,7 @@ func Load(repoDir string, patterns []string, overlay map[string][]byte, tags str
 		MaxDepth: 120, MaxSteps: 4_000_000, MaxArray: 1 << 17, MaxIte: 512, LoopBound: 300, MaxLen: 64,
 		SolverKind: "z3", TimeoutMs: 10000, Workers: 8, MaxPaths: 200000,
 		SkipInit:   map[string]bool{},
-		LazySlices: true,
+		LazySlices: true, SamplesPerHarness: 2,
 		intrinsics: map[string]intrinsicFn{},
 		opaquePkgs: map[string]string{},
 	}
@@ -147,21 +148,24 @@ type TapeEntry struct {
 }
 
 type PathResult struct {
-	Outcome         string
-	Detail          string
-	Violations      []Violation
-	Reached         []string
-	Events          []string
-	Cuts            []string
-	Branches        int
-	UnknownBranches int
-	UnknownAsserts  int
-	Asserts         int
-	Discharged      int
-	Steps           int
-	Decisions       []int
-	Stack           []string
-	ForkSites       []string
+	Outcome          string
+	Detail           string
+	Violations       []Violation
+	Reached          []string
+	Events           []string
+	Cuts             []string
+	Branches         int
+	UnknownBranches  int
+	UnknownAsserts   int
+	Asserts          int
+	Discharged       int
+	Steps            int
+	Decisions        []int
+	Stack            []string
+	ForkSites        []string
+	PortfolioQueries int
+	NoNative         bool        // path depends on environment choices the native replay cannot force (crash point, injected fault, clock, select)
+	SampleTape       []TapeEntry // a concrete input driving this path (translator validation)
 }
 
 func (r *PathResult) addCut(s string) {
@@ -197,6 +201,15 @@ type HarnessResult struct {
 	Events          map[string]int
 	NontrivialPaths int
 	ForkSites       map[string]int
+	SampleTapes     []SamplePath
+	sampleWant      int
+}
+
+// SamplePath is a concrete witness of one explored path, replayed natively to
+// validate the translation (same witnesses must be reached).
+type SamplePath struct {
+	Tape    []TapeEntry
+	Reached []string
 }
 
 // ---------------------------------------------------------------------
@@ -261,7 +274,10 @@ func (e *Engine) Explore(fn *ssa.Function, name string) *HarnessResult {
 					wk.sol, _ = smt.NewSolver(e.SolverKind, wk.ctx, e.TimeoutMs)
 					wk.sol.Queries, wk.sol.SolverDur = q, d
 				}
-				res, pend, funcs := e.runPath(wk, fn, prefix)
+				mu.Lock()
+				ws := len(hr.SampleTapes) < e.SamplesPerHarness
+				mu.Unlock()
+				res, pend, funcs := e.runPath(wk, fn, prefix, ws)
 
 				mu.Lock()
 				active--
@@ -287,6 +303,9 @@ func (e *Engine) Explore(fn *ssa.Function, name string) *HarnessResult {
 				}
 				if len(res.Reached) > 0 {
 					hr.NontrivialPaths++
+				}
+				if res.SampleTape != nil && len(hr.SampleTapes) < e.SamplesPerHarness {
+					hr.SampleTapes = append(hr.SampleTapes, SamplePath{Tape: res.SampleTape, Reached: res.Reached})
 				}
 				for _, c := range res.Cuts {
 					hr.Cuts[c]++
@@ -340,7 +359,7 @@ func compactDecisions(d []int) string {
 	return strings.TrimSpace(sb.String())
 }
 
-func (e *Engine) runPath(wk *worker, fn *ssa.Function, prefix []int) (res *PathResult, pending [][]int, funcs map[string]bool) {
+func (e *Engine) runPath(wk *worker, fn *ssa.Function, prefix []int, wantSample bool) (res *PathResult, pending [][]int, funcs map[string]bool) {
 	in := &Interp{
 		eng: e, ctx: wk.ctx, sol: wk.sol, prefix: prefix,
 		globals: map[*ssa.Global]*Loc{}, pkgInit: map[*ssa.Package]int{},
@@ -390,6 +409,14 @@ func (e *Engine) runPath(wk *worker, fn *ssa.Function, prefix []int) (res *PathR
 	}()
 	in.callFunction(fn, nil, nil)
 	res.Outcome = "ok"
+	if wantSample && !res.NoNative && len(res.Reached) > 0 && len(res.Violations) == 0 {
+		if m := in.currentModel(); m != nil || len(in.inputTerms()) == 0 {
+			res.SampleTape = in.buildTape(m)
+			if res.SampleTape == nil {
+				res.SampleTape = []TapeEntry{}
+			}
+		}
+	}
 	return
 }
 
